@@ -28,6 +28,7 @@ from . import key_driver as kd
 ENCS = ['raw', 'str', 'pickle', 'hash']
 DEVIATIONS = {
     'nonflat_kwds_order': ('C09', dict(SigIds={30}, IgnIds={0}, KwNames={'x', 'z'}, PVals={1}, MAXP=1, MAXK=2)),
+    'ignored_varkw_null_marker': ('C11', dict(SigIds={25}, IgnIds={8}, KwNames={'z'}, PVals={1}, MAXP=1, MAXK=1)),
     'starstar_pops_kwonly': ('C11', dict(SigIds={34}, IgnIds={6}, KwNames={'k'}, PVals={1, 2}, MAXP=1, MAXK=1)),
 }
 
@@ -111,8 +112,10 @@ def real_traces(groups, rng, tier, modes=('keygen', 'std', 'safe'), kms=None):
     jobs = []
     variants = [dict(serializer='pickle', algorithm='md5'), dict(serializer=None, algorithm='sha1'),
                 dict(serializer='dill', algorithm='md5')]
-    for g in groups:
+    for gi, g in enumerate(groups):
         for n, km in enumerate(kms):
+            if tier != 'thorough' and len(kms) > 12 and (n + gi) % 3 != 0 and not (km['flat'] and not km['typed'] and not km['sentinel']):
+                continue       # quick tier: the four plain flat keymaps always, a rotating third of the others
             for mode in modes:
                 if mode in ('std', 'safe') and km['enc'] == 'raw' and not km['flat']:
                     continue       # (args, kwds) with a dict inside is unhashable: unusable as a dict key by design
@@ -127,7 +130,11 @@ def real_traces(groups, rng, tier, modes=('keygen', 'std', 'safe'), kms=None):
 
 def signature(t, v, pid):
     e = t['events'][v[0] - 1]
-    return {'engine': 'key', 'clauses': v[1], 'enc': t['km']['enc'], 'flat': t['km']['flat'],
+    params = {p['n'] for p in t['sig']['pos']} | {p['n'] for p in t['sig']['ko']}
+    ign = t['ign']
+    varkw_only = bool(ign['names']) and all(n not in params for n in ign['names']) and not ign['idx'] \
+        and not ign['star'] and not ign['dstar']
+    return {'engine': 'key', 'clauses': v[1], 'varkw_only_ignore': varkw_only, 'enc': t['km']['enc'], 'flat': t['km']['flat'],
             'mode': t['meta']['mode'], 'ignore': t['meta']['ignore'],
             'has_varargs': t['sig']['va'], 'has_varkw': t['sig']['vk'], 'kwonly': len(t['sig']['ko']) > 0,
             'exc': e['exc']}
@@ -262,7 +269,7 @@ def check_C17(tier):
     mcs = []
     kms = [k for k in all_kms() if not (k['enc'] == 'raw' and not k['flat'])]
     variants = [dict(serializer='pickle', algorithm='md5'), dict(serializer=None, algorithm='sha1'),
-                dict(serializer='dill', algorithm='md5'), dict(serializer='json', algorithm='sha256')]
+                dict(serializer='dill', algorithm='sha256')]
     items = []
     for g in groups:
         for n, km in enumerate(kms):
